@@ -171,7 +171,7 @@ func runCheck(prop, tier string, overlay map[string][]byte, seed int) (*checkOut
 		os.RemoveAll(work)
 	}
 	os.MkdirAll(work, 0o755)
-	opts := runOpts{timeoutS: 10, workdir: work, onlyProp: prop}
+	opts := runOpts{timeoutS: 20, workdir: work, onlyProp: prop}
 	if tier == "thorough" {
 		opts.timeoutS = 60
 		opts.needTwo = true
